@@ -49,12 +49,12 @@ fn run(r: &mut Run) -> Result<(), MachineryError> {
     let t = r.tier;
     let big = frag_menu(&[0.0, 0.5, 1.0, 2.0, 3.5, 5.0], &[0.0, 0.5, 1.0, 2.0], &[0.0, 1.0]);
     let small = frag_menu(&[0.0, 1.0, 3.5], &[0.0, 1.0], &[0.0, 1.0]);
-    f_space(r, "C07/fragments(48-menu)", big, t.pick(3, 4))?;
-    f_space(r, "C07/fragments(12-menu,longer)", small, t.pick(5, 7))?;
+    f_space(r, "C07/fragments(48-menu)", big, t.pick(3, 5))?;
+    f_space(r, "C07/fragments(12-menu,longer)", small, t.pick(5, 8))?;
     let g = c02::gamma();
     text_space(r, "C07/text-small", &[L, SP, HY, NL, W, CM, OP, CSI], t.pick(4, 6), &g, M_C07, WidthMode::Display, 4)?;
-    text_space(r, "C07/text-tokens", &[L, LL, LLL, SP, SP2, HY, NL, W, E2], t.pick(3, 5), &g, M_C07, WidthMode::Display, 3)?;
-    text_space(r, "C07/text-rich", &[L, SP, HY, TAB, ZW, NB, OP, CL, EM, E2, NL, D], t.pick(3, 4), &g, M_C07, WidthMode::Display, 3)?;
+    text_space(r, "C07/text-tokens", &[L, LL, LLL, SP, SP2, HY, NL, W, E2], t.pick(3, 6), &g, M_C07, WidthMode::Display, 3)?;
+    text_space(r, "C07/text-rich", &[L, SP, HY, TAB, ZW, NB, OP, CL, EM, E2, NL, D], t.pick(3, 5), &g, M_C07, WidthMode::Display, 3)?;
     char_context_space(r, "C07/all-characters-in-context", M_C07, vec![Alg::FirstFit])?;
     escape_scan_space(r, "C07/escape-grammar-scan", M_C07, vec![Alg::FirstFit])?;
     Ok(())
